@@ -70,7 +70,28 @@ func init() {
 					pl := r.Bytes(r.Range(0, 20))
 					var in []byte
 					kind := ""
-					switch r.Intn(5) {
+					switch r.Intn(8) {
+					case 5, 6: // a longer user data header that merely CONTAINS a concatenation element (first or not),
+						// with other well-formed elements around it: not one of the two header forms
+						concat := []byte{0, 3, byte(r.U32()), byte(r.Range(1, 9)), 1}
+						if r.Bool() {
+							concat = []byte{8, 4, byte(r.U32()), byte(r.U32()), byte(r.Range(1, 9)), 1}
+						}
+						others := [][]byte{{0x05, 0x04, 0x0b, 0x84, 0x23, 0xf0}, {0x24, 0x01, byte(r.Intn(14))}, {0x25, 0x01, byte(r.Intn(14))}, {0x04, 0x02, 0x23, 0xf0}}
+						var ies []byte
+						if r.Bool() {
+							ies = append(append(ies, concat...), others[r.Intn(len(others))]...)
+							kind = "longer-udh-concat-first"
+						} else {
+							ies = append(append(ies, others[r.Intn(len(others))]...), concat...)
+							kind = "longer-udh-concat-later"
+						}
+						if r.Chance(1, 3) {
+							ies = append(ies, others[r.Intn(len(others))]...)
+						}
+						in = append(append([]byte{byte(len(ies))}, ies...), pl...)
+					case 7: // UDHL says 5/6 but the element is not a concatenation element
+						in, kind = append([]byte{5, 0x24, 0x03, byte(r.U32()), 2, 1}, pl...), "other-element-of-same-size"
 					case 0: // wrong octet in the first three
 						k := r.Intn(3)
 						x := byte(r.U32())
